@@ -393,6 +393,14 @@ package decor
 //@   requires producer != nil
 //@   ensures  frozen: s.Completed || s.Aborted ==> result == old(msg) && msg == old(msg)
 //@   ensures  live: !(s.Completed || s.Aborted) ==> result == msg && called("NewElapsed$1.producer") == old(called("NewElapsed$1.producer")) + 1
+//@   ensures  measured: !(s.Completed || s.Aborted) ==> msg == returned("NewElapsed$1.producer", 0) && calledWith("NewElapsed$1.producer", 0) == returned("time.Since", 0) && calledWith("time.Since", 0) == start
+//@ func NewElapsed
+//@   props    C20 C03 C02
+//@   ensures  built: called("Any") == old(called("Any")) + 1 && fnof(calledWith("Any", 0)) == fn("NewElapsed$1") && bound(calledWith("Any", 0), "start") == in(start)
+//@              && bound(calledWith("Any", 0), "producer") == returned("chooseTimeProducer", 0) && calledWith("chooseTimeProducer", 0) == in(style) && calledWith("Any", 1) == wcc && result == returned("Any", 0)
+//@ func Elapsed
+//@   props    C20 C03 C02
+//@   ensures  now: called("NewElapsed") == old(called("NewElapsed")) + 1 && calledWith("NewElapsed", 0) == style && calledWith("NewElapsed", 1) == returned("time.Now", 0) && calledWith("NewElapsed", 2) == wcc && result == returned("NewElapsed", 0)
 
 //@ functype NewElapsed$1.producer
 //@   modifies nothing
@@ -402,6 +410,15 @@ package decor
 //@   requires 0 <= s.Current && s.Current <= s.Total
 //@   ensures  calledWith("Percentage", 0) == s.Total && calledWith("Percentage", 1) == s.Current
 //@            && calledWith("Percentage", 2) == 100
+//@   ensures  handed: called("fmt.Sprintf") == old(called("fmt.Sprintf")) + 1 && calledWith("fmt.Sprintf", 0) == format && result == returned("fmt.Sprintf", 0) && len(calledWith("fmt.Sprintf", 1)) == 1
+//@              && hasType(calledWith("fmt.Sprintf", 1)[0], "percentageType") && unboxAs(calledWith("fmt.Sprintf", 1)[0], "percentageType") == i2f(returned("Percentage", 0))
+//@ func NewPercentage
+//@   props    C20 C02
+//@   ensures  built: called("Any") == old(called("Any")) + 1 && fnof(calledWith("Any", 0)) == fn("NewPercentage$1") && bound(calledWith("Any", 0), "format") == ite(in(format) == "", "% d", in(format))
+//@              && calledWith("Any", 1) == wcc && result == returned("Any", 0)
+//@ func Percentage
+//@   props    C20 C02
+//@   ensures  default: called("NewPercentage") == old(called("NewPercentage")) + 1 && calledWith("NewPercentage", 0) == "% d" && calledWith("NewPercentage", 1) == wcc && result == returned("NewPercentage", 0)
 
 // ---------------------------------------------------------------------------------------
 // remaining helpers (C02)
